@@ -131,13 +131,28 @@ def r2(ctx):
     outs2 = ctx.count_paths(I2.explore(lambda run: I2.call(run, I2.getattr(run, mk_app(I2, run), "_callback", None), [Sym("on_message", "func")], {}, None)))
     okk = any(o.kind == "raise" and o.exc_class == "builtins.KeyboardInterrupt" for o in outs2)
     ctx.ob(f"{q}:keyboardinterrupt-propagates", okk, "KeyboardInterrupt from a callback is not swallowed", loc)
-    # who-may-call: self.on_* invoked only in _callback
+    # who-may-call: self.on_* invoked only in _callback, or in a private helper that is itself used only from there
+    uses = {}
+    for qn, fi in idx.functions.items():
+        if fi.module != "_app":
+            continue
+        for n in idx.own_nodes(fi.node):
+            if isinstance(n, ast.Attribute) and isinstance(n.ctx, ast.Load) and text(n.value) == "self":
+                uses.setdefault(n.attr, []).append(qn)
+
+    def only_under_callback(qn, depth=0):
+        if qn == q:
+            return True
+        name = qn.rsplit(".", 1)[-1]
+        us = uses.get(name, [])
+        return depth < 4 and qn.startswith(APP + ".") and name.startswith("_") and bool(us) and all(only_under_callback(u, depth + 1) for u in us)
+
     direct = []
     for qn, fi in idx.functions.items():
         if fi.module != "_app":
             continue
         for c in idx.calls_in(qn):
-            if isinstance(c.func, ast.Attribute) and c.func.attr in CALLBACKS and text(c.func.value) == "self" and qn != q:
+            if isinstance(c.func, ast.Attribute) and c.func.attr in CALLBACKS and text(c.func.value) == "self" and not only_under_callback(qn):
                 direct.append((qn, c))
     ctx.ob("_app:user-callbacks-invoked-only-via-_callback", not direct,
            "no direct self.on_*(...) call outside _callback" if not direct else f"{direct[0][0]} calls {text(direct[0][1].func)} directly: its exceptions are not contained",
@@ -147,7 +162,7 @@ def r2(ctx):
     ctx.ob("control:direct-callback-pattern-matches", len(hit) == 1, "embedded violating snippet is recognised", "")
 
 
-def setsock_paths(ctx, reconnecting: bool, on_reconnect: bool, ping_interval=0, may_raise=None, sock_set=False):
+def setsock_paths(ctx, reconnecting: bool, on_reconnect: bool, ping_interval=0, may_raise=None, sock_set=False, app_fields=None):
     idx = ctx.index
 
     def ws_ctor(I, run, args, kwargs, node):
@@ -166,12 +181,15 @@ def setsock_paths(ctx, reconnecting: bool, on_reconnect: bool, ping_interval=0, 
 
     st = sock_stubs(extra={"_core:WebSocket": ws_ctor, "appsock.connect": connect, "disp.read": disp_read,
                            f"{RF}.handleDisconnect": lambda I, run, a, k, n: (run.effect("handleDisconnect", a, k, node=n), NONE)[1],
-                           f"{APP}._start_ping_thread": lambda I, run, a, k, n: (run.effect("_start_ping_thread", (), node=n), NONE)[1],
+                           # the ping thread is recognised by what starts it (threading.Thread(...).start()), wherever that code lives
+                           "threading.Event": lambda I, run, a, k, n: new_obj(run, None, "freshev"),
+                           "threading.Thread": lambda I, run, a, k, n: (run.effect("Thread", a, k, node=n), new_obj(run, None, "pingthread"))[1],
+                           "pingthread.start": lambda I, run, a, k, n: (run.effect("pingthread.start", (), node=n), NONE)[1],
                            "_socket:getdefaulttimeout": lambda *a: NONE})
     I = Interp(idx, Config(stubs=st, may_raise=may_raise))
 
     def closure(run):
-        app = mk_app(I, run, {"on_reconnect": on_reconnect}, keep_running=TRUE, ping_interval=C(ping_interval))
+        app = mk_app(I, run, {"on_reconnect": on_reconnect}, keep_running=TRUE, ping_interval=C(ping_interval), **(app_fields(run) if app_fields else {}))
         if sock_set:
             run.cell(app).fields["sock"] = new_obj(run, None, "oldsock")
         return closure_env(run, app, ping_interval=C(ping_interval))
